@@ -15,6 +15,8 @@ SHIPPED = [
     "only leaves..tutorial_get.explicit_noop,normal..tutorial_gui.client_noop\n",
     "only normal..tutorial_gui.client_noop,leaves..tutorial_get.explicit_noop\n",
     "only normal..tutorial_gui,leaves..tutorial_get.implicit_both\n",
+    # a dependant of several producers of which one is already in the graph when the dependency is resolved
+    "only leaves..tutorial_get.explicit_noop,leaves..tutorial_get.implicit_both\n",
 ]
 SHIPPED_VMS = [
     {"vm1": "only CentOS\n", "vm2": "only Win10\n", "vm3": "only Ubuntu\n"},
@@ -86,6 +88,8 @@ def main(prop, deciding_counters, quick_cases=90, thorough_cases=2500, assumptio
                           "nets": "net1", "params": {"shared_pool": "/mnt/local/images/shared"}, "suite": "shipped", "twice": False, "lazy": True})
     for case in cases:
         case["oracles"] = [prop]
+        # a run-wide override of a parameter that the shipped test configurations set themselves
+        case.setdefault("params", {})["kill_vm_gracefully"] = "verif"
     budget = args.budget or (None if args.replay else (900 if args.tier == "quick" else 3 * 3600))
     for case, result in par.run_cases("vlib.graphsnap:parse_and_judge", iter(cases), jobs=args.jobs, timeout=600, budget_s=budget):
         if "inconclusive" in result:
